@@ -514,7 +514,7 @@ void checkSecondParse(vf::Ctx& c, const char* fn, const string& desc2, const SMa
 
 }  // namespace
 
-LAW(K1_procedure, RC, 30000, 1500000, 240, "procedure with a nested argument") {
+LAW(K1_procedure, RC, 30000, 1500000, 320, "procedure with a nested argument") {
   string name = genWord(c, NAMECH, 1, 6);
   bool hasNested = false; SMap args = genArgs(c, 6, true, hasNested);
   bool blanks = c.oneIn(3);
